@@ -2,16 +2,19 @@
 import pickle
 
 import nodes_impl as ni
+import sdl_impl as si
 
 PID = "C08"
 IMPORTS = "NodeModel NodeObs"
 FUNCS = ["torchdata/nodes/loader.py:Loader", "torchdata/nodes/loader.py:LoaderIterator", "torchdata/nodes/batch.py:Unbatcher",
          "torchdata/nodes/map.py:_ParallelMapperIter", "torchdata/nodes/map.py:_SingleThreadedMapper",
          "torchdata/nodes/samplers/multi_node_weighted_sampler.py:MultiNodeWeightedSampler",
+         "torchdata/stateful_dataloader/stateful_dataloader.py:StatefulDataLoader",
          "torchdata/stateful_dataloader/stateful_dataloader.py:_StatefulMultiProcessingDataLoaderIter._update_snapshot",
          "torchdata/stateful_dataloader/incremental_state.py:_IncrementalState.get_state"]
 RULE = ("histories interleaving next(), state_dict(), load_state_dict(of the SAME dict object, repeatedly, into the same and into fresh loaders) and new epochs over random "
-        "pipelines (plus MultiNodeWeightedSampler with every stop criterion); each state dict is pickled at birth and deep-compared with itself at the end, loaded twice into "
+        "pipelines (plus MultiNodeWeightedSampler with every stop criterion, bare and under a Prefetcher, whose RESUMED loader also computes states; plus StatefulDataLoader with 0/2 workers "
+        "and a RandomSampler, state_dict() before the first iter(), after every batch and between epochs); each state dict is pickled at birth and deep-compared with itself at the end, loaded twice into "
         "two fresh loaders (same continuation required), and the item stream is compared with a run that makes extra state_dict() calls after every op; "
         "non-trivial = history has >=1 load and >=3 next; distinct = distinct (pipeline, history)")
 TRUSTED = ["aliasing inside user code is excluded by construction (harness iterables copy on load); the claim is about the library's bookkeeping",
@@ -44,8 +47,15 @@ def gen_history(rng, L):
 
 
 def gen_cases(rng, tier, drift):
-    n, nw = (350, 150) if tier == "quick" and not drift else (5000, 2000)
+    n, nw, nsdl = (350, 150, 36) if tier == "quick" and not drift else (5000, 2000, 400)
     cases = []
+    # StatefulDataLoader: state_dict() before the first iter(), after every batch and between epochs must not change the
+    # stream (a RandomSampler with its own generator makes a second, hidden iter(sampler) visible), the dicts stay as born
+    for _ in range(nsdl):
+        cfg = si.gen_cfg(rng, kinds=("map",), maxW=2)
+        cfg.update(W=rng.choice([0, 0, 2]), n=rng.randint(3, 10), bs=rng.choice([1, 2, 3]), I=rng.choice([1, 1, 2]),
+                   sampler=dict(replacement=False, num_samples=None), gseed=rng.randint(0, 999))
+        cases.append(dict(kind="sdl", cfg=cfg, pre=rng.random() < 0.8, between=rng.random() < 0.5))
     for _ in range(n):
         p = ni.gen_well_typed_pipe(rng, max_depth=rng.choice([1, 2, 3, 4]), threads=rng.random() < 0.5)
         L = max(len(ni.ref_sem(p, e)) for e in range(4))
@@ -53,7 +63,7 @@ def gen_cases(rng, tier, drift):
     for _ in range(nw):
         ns = rng.randint(1, 3)
         cases.append(dict(kind="weighted", lens=[rng.randint(1, 6) for _ in range(ns)], crit=rng.choice(["CYCLE_UNTIL_ALL_DATASETS_EXHAUSTED", "ALL_DATASETS_EXHAUSTED", "FIRST_DATASET_EXHAUSTED", "CYCLE_FOREVER"]),
-                          seed=rng.randint(0, 50), k=rng.randint(0, 8), wseed=rng.randint(0, 10**6)))
+                          seed=rng.randint(0, 50), k=rng.randint(0, 8), wseed=rng.randint(0, 10**6), pf=rng.random() < 0.4))
     return cases
 
 
@@ -124,15 +134,20 @@ def run_impl(c):
         if ni.timing_dependent(p, ops):      # D15 (C13): no deterministic model observation for the epoch counter
             return dict(oracle="; ".join(fails[:2]) or None, nontrivial=False, key=[p, ops, restart])
         return dict(obs=obs, oracle="; ".join(fails[:2]) or None, nontrivial="load" in kinds and kinds.count("next") >= 3, key=[p, ops, restart])
+    if c["kind"] == "sdl":
+        return run_sdl(c)
     # weighted sampler
-    from torchdata.nodes import IterableWrapper, MultiNodeWeightedSampler
+    from torchdata.nodes import IterableWrapper, MultiNodeWeightedSampler, Prefetcher
     import random
 
     def mk():
         rw = random.Random(c["wseed"])
         src = {f"d{i}": IterableWrapper(list(range(100 * i, 100 * i + n))) for i, n in enumerate(c["lens"])}
         w = {k: round(rw.uniform(0.2, 2.0), 3) for k in src}
-        return Loader(MultiNodeWeightedSampler(src, w, stop_criteria=c["crit"], seed=c["seed"]))
+        node = MultiNodeWeightedSampler(src, w, stop_criteria=c["crit"], seed=c["seed"])
+        if c.get("pf"):       # a Prefetcher above the sampler asks it for its state once per item
+            node = Prefetcher(node, prefetch_factor=2)
+        return Loader(node)
     ld = mk()
     it = iter(ld)
     got = []
@@ -149,11 +164,13 @@ def run_impl(c):
         l2.load_state_dict(sd)
         i2 = iter(l2)
         ep = []
-        for _ in range(30):
+        for j in range(30):
             try:
                 ep.append(next(i2))
             except StopIteration:
                 break
+            if j % 3 == 1:
+                l2.state_dict()          # the RESUMED loader computes states too: they must not be written into the loaded dict
         cont.append(ep)
         if not deep_eq(pickle.loads(pk), sd):
             fails.append(f"state dict changed by loading it and iterating: born {pickle.loads(pk)}, now {sd}")
@@ -168,6 +185,54 @@ def run_impl(c):
     if not deep_eq(pickle.loads(pk), sd):
         fails.append("state dict changed by further iteration of the loader that produced it")
     return dict(oracle="; ".join(fails[:2]) or None, nontrivial=c["k"] > 0, key=[c[k] for k in sorted(c)])
+
+
+def run_sdl(c):
+    cfg = c["cfg"]
+    fails = []
+
+    def run(extra):
+        dl = si.make_loader(cfg)
+        out, saved, pk = [], [], []
+
+        def peek():
+            sd = dl.state_dict()
+            saved.append(sd)
+            pk.append(pickle.dumps(sd))
+        if extra and c["pre"]:
+            peek()
+        for e in range(2):
+            ep = []
+            for b in dl:
+                ep.append(si.norm_batch(b))
+                if extra:
+                    peek()
+            out.append(ep)
+            if extra and c["between"]:
+                peek()
+        return out, saved, pk
+    try:
+        plain, _, _ = run(False)
+        ext, saved, pk = run(True)
+        if ext != plain:
+            fails.append(f"state_dict() calls changed the stream: {ext} vs {plain} without them")
+        for i, (sd, b) in enumerate(zip(saved, pk)):
+            if not deep_eq(pickle.loads(b), sd):
+                fails.append(f"state dict #{i} changed after it was returned")
+                break
+        for i in sorted({0, len(saved) // 2, len(saved) - 1}) if saved else []:
+            cont = []
+            for _ in range(2):
+                dl = si.make_loader(cfg)
+                dl.load_state_dict(saved[i])
+                cont.append([si.norm_batch(b) for b in dl])
+            if cont[0] != cont[1]:
+                fails.append(f"state dict #{i} loaded twice: {cont[0]} then {cont[1]}")
+            if not deep_eq(pickle.loads(pk[i]), saved[i]):
+                fails.append(f"state dict #{i} changed by loading it and iterating")
+    finally:
+        si.kill_children()
+    return dict(oracle="; ".join(fails[:2]) or None, nontrivial=len(plain[0]) >= 2, key=[cfg, c["pre"], c["between"]])
 
 
 def model_term(c, r):
